@@ -56,7 +56,7 @@ for _v in DV.TREEINFO_VERSIONS:
     CLASS_FLOORS["accepted-treeinfo-" + _v] = 5
 CLASS_FLOORS.update({"fixtures-treeinfo": 60, "fixtures-discinfo": 50, "fixtures-images": 3, "fixtures-composeinfo": 2,
                      "legacy-prefix-children": 5, "legacy-product-section": 5, "images-src-moved": 5, "rpms-0.3-src": 5,
-                     "treeinfo-0.3-src-tree": 3, "treeinfo-0.0-legacy-image-section": 3})
+                     "treeinfo-0.3-src-tree": 3, "treeinfo-0.0-legacy-image-section": 3, "treeinfo-0.0-blank-packagedir-with-repository": 3})
 
 
 def plan(tier):
@@ -264,6 +264,10 @@ def gen_cases(ctx, pms, rng, per_version):
                 ctx.count("treeinfo-0.3-src-tree")
             if version == "0.0" and any(s.startswith("[images-") and s.count("-") >= 2 for s in textin.split("\n")):
                 ctx.count("treeinfo-0.0-legacy-image-section")
+            if version == "0.0" and any(l.split("=")[0].strip() in ("packagedir", "packages") and l.split("=", 1)[1].strip() == ""
+                                        for l in textin.split("\n") if "=" in l) and \
+                    any(l.startswith("repository") for l in textin.split("\n")):
+                ctx.count("treeinfo-0.0-blank-packagedir-with-repository")
             acc = upgrade_cycle(ctx, pms, "treeinfo", textin, E, case, version)
             ctx.case_done(case, nontrivial=acc)
             if i == 0 and version == "0.0":
